@@ -174,6 +174,53 @@ def log_integral(f_log, lo, hi, piece=0.25, order=24):
     return m + mp.log(mp.fsum(w * mp.exp(fv - m) for fv, w in vals))
 
 
+def tie_grid(rng, samp, coal, gg):
+    """a grid with coalescent times placed EXACTLY on grid points: the root as the last grid point (the usual
+    `cutoff = root height` set-up), interior coalescent times as interior grid points, several at once"""
+    coal_s = sorted(coal)
+    root = coal_s[-1]
+    mode = rng.choice(["root-cutoff", "interior", "several"])
+    tied = set()
+    if mode in ("root-cutoff", "several"):
+        tied.add(root)
+    if mode in ("interior", "several") or len(coal_s) == 1:
+        k = rng.randint(1, min(3, len(coal_s)))
+        tied.update(rng.sample(coal_s, k))
+    others = [g for g in G.grid_for(rng, gg, root, coal, samp, q=3) if g not in coal]
+    if root in tied and mode == "root-cutoff":
+        others = [g for g in others if g < root]
+    return sorted(set(others) | tied), mode
+
+
+def counts_admissible(coal, grid, counts):
+    """coalescent counts per grid window: a coalescent time c with grid[k] == c may be charged to the window ending at
+    grid[k] (left-continuous, what the stable-sort model does) or to the one starting there (right-continuous): torch's
+    argsort is not stable. -> (ok, sides) with sides[k] in {'left','right'} for the tied grid points"""
+    W = len(grid) + 1
+    base = [0] * W
+    tied = {}
+    for c in coal:
+        if c in grid:
+            tied[grid.index(c)] = c
+        else:
+            base[sum(1 for g in grid if g < c)] += 1
+    sides, carry = {}, 0
+    for w in range(W):
+        extra = counts[w] - base[w] - carry
+        carry = 0
+        if w in tied:
+            if extra == 1:
+                sides[w] = "left"
+            elif extra == 0:
+                sides[w] = "right"
+                carry = 1
+            else:
+                return False, sides
+        elif extra != 0:
+            return False, sides
+    return carry == 0, sides
+
+
 class Runner:
     def __init__(self, ck, drv):
         self.ck, self.drv, self.fail = ck, drv, {}
@@ -390,7 +437,7 @@ class Runner:
                 self.ck.mismatch("sum(lchoose2*durations) differs from the model (exact)", {"case": enc(case), "impl": stat, "model": st})
 
     # ---- sufficient statistics
-    def suffstats(self, rng, kind, n, given=None):
+    def suffstats(self, rng, kind, n, given=None, ties=False):
         import torch
         import torchtree.evolution.coalescent as C
 
@@ -400,13 +447,19 @@ class Runner:
             case = {"what": "suffstats", "kind": kind, "samp": samp, "coal": coal}
             if kind == "skygrid":
                 gg = rng.randint(1, 8)
-                case["grid"] = G.grid_for(rng, gg, max(coal), coal, samp, q=3)
-                case["thetas"] = [G.pow2(rng) for _ in range(gg + 1)]
+                if ties:
+                    case["grid"], case["tie_mode"] = tie_grid(rng, samp, coal, gg)
+                else:
+                    case["grid"] = G.grid_for(rng, gg, max(coal), coal, samp, q=3)
+                case["thetas"] = [G.pow2(rng) for _ in range(len(case["grid"]) + 1)]
+                while ties and len(set(case["thetas"])) < 2:  # the side taken must be visible in the value
+                    case["thetas"] = [G.pow2(rng) for _ in range(len(case["grid"]) + 1)]
             else:
                 case["thetas"] = [G.pow2(rng) for _ in coal]
         else:
             case = given
         kind, samp, coal = case["kind"], case["samp"], case["coal"]
+        has_ties = kind == "skygrid" and any(c in case["grid"] for c in coal)
         n = len(samp)
         if kind == "skygrid":
             dist = C.PiecewiseConstantCoalescentGrid(T(case["thetas"]), T(case["grid"]))
@@ -416,7 +469,7 @@ class Runner:
         h = T(samp + coal)
         self.ck.case(key=("ss", kind, n, tuple(samp), tuple(coal), tuple(case.get("grid", [])), tuple(case["thetas"])),
                      sample={"kind": kind, "samp": [float(x) for x in samp], "coal": [float(x) for x in coal], "grid": [float(x) for x in case.get("grid", [])]} if n <= 3 else None,
-                     bucket=f"suffstats/{kind}/n{'<=5' if n <= 5 else '<=12' if n <= 12 else '<=50'}")
+                     bucket=f"suffstats/{kind}/n{'<=5' if n <= 5 else '<=12' if n <= 12 else '<=50'}" + (f"/coalescent-on-grid/{case.get('tie_mode', '')}" if has_ties else ""))
         try:
             ss, cnt = dist.sufficient_statistics(h)
             lp = float(dist.log_prob(h).reshape(-1)[0])
@@ -443,7 +496,14 @@ class Runner:
             gi = sum(1 for x in breaks if x < c_)
             if gi < len(want_cnt):
                 want_cnt[gi] += 1
-        if len(set(coal)) == len(coal) and ([F(v) for v in ss_l] != want_ss or [int(v) for v in cnt_l] != want_cnt):
+        cnt_ok = [int(v) for v in cnt_l] == want_cnt
+        if has_ties:
+            # a coalescent time ON a grid point: either side is admissible (Props/C20_Ties.lean, C08_Ties.lean); the
+            # reproduce identity below, against the SAME evaluation's log_prob, decides whether the side is consistent
+            cnt_ok, sides = counts_admissible(coal, sorted(case["grid"]), [int(v) for v in cnt_l])
+            for sd in sides.values():
+                self.ck.bucket("suffstats/torch-tie-side/" + sd)
+        if len(set(coal)) == len(coal) and ([F(v) for v in ss_l] != want_ss or not cnt_ok):
             self.violation(f"{cls}.sufficient_statistics:value",
                            f"{cls}.sufficient_statistics: statistics {ss_l} / counts {cnt_l}, but the integrals of C(k,2) over the {len(th)} windows are {[float(v) for v in want_ss]} with {want_cnt} coalescent events (n={n})",
                            case, n, {"ss": ss_l, "counts": cnt_l})
@@ -466,7 +526,10 @@ class Runner:
             w = rep.split()
             i = w.index("cnt")
             m_ss, m_cnt = [F(v) for v in w[1:i]], [int(v) for v in w[i + 1:]]
-            if m_ss != [F(v) for v in ss_l] or m_cnt != [int(v) for v in cnt_l]:
+            # counts: the model (stable sort) always charges a tied coalescent to the window ENDING at the grid point;
+            # torch may take either side, so under ties the counts are compared through counts_admissible above
+            if m_ss != [F(v) for v in ss_l] or (not has_ties and m_cnt != [int(v) for v in cnt_l]) or \
+                    (has_ties and m_cnt != want_cnt):
                 self.ck.mismatch("sufficient statistics / counts differ from the model (exact)",
                                  {"case": enc(case), "impl": [ss_l, cnt_l], "model": rep})
             a, b = [h2f(v) for v in rr.split()]
@@ -474,7 +537,7 @@ class Runner:
                 self.ck.mismatch("model: reproduce differs from -log_prob (theorem broken?)", {"case": enc(case), "model": [a, b]})
         return case, dist
 
-    def suffstats_batched(self, rng, kind, n, given=None):
+    def suffstats_batched(self, rng, kind, n, given=None, ties=False):
         """batched theta (the block-update operator indexes rows): row s must reproduce row s"""
         import torch
         import torchtree.evolution.coalescent as C
@@ -486,8 +549,11 @@ class Runner:
             case = {"what": "suffstats-batched", "kind": kind, "samp": samp, "coal": coal}
             if kind == "skygrid":
                 gg = rng.randint(1, 6)
-                case["grid"] = G.grid_for(rng, gg, max(coal), coal, samp, q=3)
-                case["theta_rows"] = [[G.pow2(rng) for _ in range(gg + 1)] for _ in range(B)]
+                if ties:
+                    case["grid"], case["tie_mode"] = tie_grid(rng, samp, coal, gg)
+                else:
+                    case["grid"] = G.grid_for(rng, gg, max(coal), coal, samp, q=3)
+                case["theta_rows"] = [[G.pow2(rng) for _ in range(len(case["grid"]) + 1)] for _ in range(B)]
             else:
                 case["theta_rows"] = [[G.pow2(rng) for _ in coal] for _ in range(B)]
         else:
@@ -499,7 +565,8 @@ class Runner:
         else:
             dist = C.PiecewiseConstantCoalescent(T2(rows))
         cls = type(dist).__name__
-        self.ck.case(key=("ss-batch", kind, n, B, tuple(samp), tuple(coal)), bucket=f"suffstats/batched/{kind}")
+        self.ck.case(key=("ss-batch", kind, n, B, tuple(samp), tuple(coal), tuple(case.get("grid", []))),
+                     bucket=f"suffstats/batched/{kind}" + ("/coalescent-on-grid" if ties else ""))
         h = T(samp + coal)
         try:
             lp = [float(v) for v in dist.log_prob(h).reshape(-1).tolist()]
@@ -710,6 +777,13 @@ def run(ck: Check):
         for n in ([2, 3, 5, 9] if not thorough else [2, 3, 4, 5, 9, 17, 33]):
             R.guard('suffstats_batched', R.suffstats_batched, rng, "skyride", n)
             R.guard('suffstats_batched', R.suffstats_batched, rng, "skygrid", n)
+        # coalescent times exactly ON grid points (root = cutoff, interior, several), single and batched
+        for _ in range(3 if not thorough else 10):
+            for n in ((list(range(2, 11)) + [20, 50]) if not thorough else list(range(2, 40))):
+                R.guard('suffstats', R.suffstats, rng, "skygrid", n, ties=True)
+        for n in ([2, 3, 4, 5, 7, 9] if not thorough else list(range(2, 20))):
+            for _ in range(2):
+                R.guard('suffstats_batched', R.suffstats_batched, rng, "skygrid", n, ties=True)
         for n in ([2, 3, 5, 8, 13] if not thorough else list(range(2, 30))):
             R.guard('sampler_gradient', R.sampler_gradient, rng, n)
         for n in ([2, 3, 5, 9] if not thorough else [2, 3, 4, 5, 7, 9, 14, 25]):
